@@ -1285,6 +1285,10 @@ def sv_method(I, st, obj, name, args, kwargs):
         return [(st, Opaque("join", [obj, a]))]
     if name in ("format", "title", "replace", "lower", "upper") and obj.known and isinstance(obj.conc, str) and name == "format":
         return [(st, Opaque("format", [obj] + list(args)))]
+    if name in ("lower", "upper", "casefold", "title", "swapcase", "capitalize") and not args:
+        # case mappings: uninterpreted functions of the string (nothing is assumed about them)
+        val = SV(smt.mk_str(z3.Function("str_" + name, smt.S, smt.S)(sval(t))))
+        return branch(ctx, st, [(smt.kd(t, K_STR), val), (z3.Not(smt.kd(t, K_STR)), raised("AttributeError", "." + name))])
     if name in ("startswith", "split", "replace", "isdigit", "isascii", "lstrip", "strip"):
         isstr = smt.kd(t, K_STR)
         sv = sval(t)
